@@ -133,3 +133,19 @@ Proof.
     destruct (fc_cache cfg) eqn:C; [|reflexivity]. destruct (Sc eq_refl) as [_ [_ [_ Gd]]].
     destruct (fw_get_fault w); [rewrite (Gd eq_refl); reflexivity|reflexivity].
 Qed.
+
+(* ---- C07 / C13 / C01: the content the model returns passes the content test of the runs ---- *)
+From NCG Require Import Run.Env Proofs.Header Proofs.Reflect.
+Theorem model_content_passes_spec sf ss decoded h c : (h_fmt h = 0 \/ h_fmt h = 1) ->
+  content_of sf ss decoded h = Some c -> content_ok_b sf ss h c = true /\ decoded = true.
+Proof.
+  intros Hf H. destruct (content_sound sf ss decoded h c Hf H) as [D K]. split; [|exact D].
+  apply content_ok_b_complete; assumption.
+Qed.
+Theorem model_verify_passes_spec sf ss decoded lv h c : (h_fmt h = 0 \/ h_fmt h = 1) ->
+  verify_of sf ss decoded lv h = Some c ->
+  content_of sf ss decoded h = Some c /\ lv = true /\ content_ok_b sf ss h c = true /\ decoded = true.
+Proof.
+  intros Hf H. destruct (verify_implies_content sf ss decoded lv h c H) as [C L].
+  destruct (model_content_passes_spec sf ss decoded h c Hf C) as [K D]. auto.
+Qed.
